@@ -146,6 +146,26 @@ def run(chk):
     reals.append(core.call_real(lambda: ds.nndist_hamming("AC", {"AC"}, maxdist=5)))
     meta.append((ops[-1], lambda v: v, "nndist"))
 
+    # dense references: a sequence with more than 255 (and more than 65535 would need length > 1600) distance-1 partners present
+    from Levenshtein import distance as _levd
+    for ham in (False, True):
+        L = 14 if ham else 8
+        x = "".join(rng.choice(AA) for _ in range(L))
+        nbrs = {x[:i] + c + x[i + 1:] for i in range(L) for c in AA if c != x[i]}
+        if not ham:
+            nbrs |= {x[:i] + c + x[i:] for i in range(L + 1) for c in AA} | {x[:i] + x[i + 1:] for i in range(L)}
+        y = sorted(nbrs)[rng.randrange(len(nbrs))]
+        ref = set(nbrs) | {"".join(rng.choice(AA) for _ in range(L)) for _ in range(20)} | {x}
+        seqs_d = [x, y, x]
+        nbf = ds.hamming_neighbors if ham else ds.levenshtein_neighbors
+        real = core.call_real(lambda: [int(v) for v in ds.calculate_neighbor_numbers(seqs_d, reference=ref, neighborhood=nbf)])
+        d1 = (lambda r, s_: len(r) == len(s_) and sum(a != b for a, b in zip(r, s_)) == 1) if ham else (lambda r, s_: _levd(r, s_) == 1)
+        want = [sum(1 for r in ref if d1(r, s_)) for s_ in seqs_d]
+        chk.case(nontrivial_key=("dense", ham))
+        chk.count("op:neighbor_numbers-dense")
+        if real != ("ok", want):
+            chk.violation(f"C12|calculate_neighbor_numbers|dense-{'ham' if ham else 'lev'}", f"calculate_neighbor_numbers = {str(real)[:80]} but the numbers of "
+                          f"distance-1 partners in the reference are {want} (counts above 255)", {"seqs": seqs_d, "reference_size": len(ref), "want": want, "real": str(real)[:200]})
     ans = core.run_driver_parallel(ops)
     chk.exhaustive = True
     for (op, canon, key), real, a in zip(meta, reals, ans):
